@@ -355,6 +355,54 @@ pub struct RNotes {
     pub beyond_end_zero: bool,
     pub stopped_on_error: bool,
     pub cut_inside_item: bool,
+    /// labels derived from a model of the buffered reader's fill level (labels only, never an oracle)
+    pub nonempty_refill: bool,
+    pub multiword_buffered: bool,
+    pub n64_empty: bool,
+    pub double_word_unbuf: bool,
+    pub pos_while_multiword: bool,
+    pub seek_back_after_table: bool,
+    pub fill: usize,
+}
+
+impl RNotes {
+    fn consume(&mut self, n: usize, w: usize, unbuf: bool, p: usize) {
+        if unbuf {
+            if n > 0 && p % 64 + n > 64 {
+                self.double_word_unbuf = true;
+            }
+            return;
+        }
+        if n <= self.fill {
+            self.fill -= n;
+        } else {
+            if self.fill > 0 {
+                self.nonempty_refill = true;
+            }
+            if n == 64 && self.fill == 0 {
+                self.n64_empty = true;
+            }
+            let rem = n - self.fill;
+            self.fill = (w - rem % w) % w;
+        }
+    }
+    fn peek(&mut self, n: usize, w: usize, unbuf: bool, p: usize) {
+        if unbuf {
+            if p % 64 + n > 64 {
+                self.double_word_unbuf = true;
+            }
+            return;
+        }
+        if n > self.fill {
+            if self.fill > 0 {
+                self.nonempty_refill = true;
+            }
+            self.fill += w;
+            if self.fill > w {
+                self.multiword_buffered = true;
+            }
+        }
+    }
 }
 
 enum Step {
@@ -390,7 +438,7 @@ fn exec_rops(s: &RStream, rd: &mut dyn DynR, ops: &[ROp], p: &mut usize, notes: 
     let w = s.cfg.r.word().bits();
     let tag = s.cfg.r.name();
     let cfgname = s.cfg.name();
-    // model of the buffered reader's fill level, only used to label cases (never as an oracle)
+    let unbuf = s.cfg.r == RKind::Unbuf;
     for (i, op) in ops.iter().enumerate() {
         let name = rop_name(op);
         let sig = |what: &str| format!("{}/{}/{}", name, tag, what);
@@ -414,6 +462,7 @@ fn exec_rops(s: &RStream, rd: &mut dyn DynR, ops: &[ROp], p: &mut usize, notes: 
                     if !within {
                         notes.beyond_end_zero = true;
                     }
+                    notes.consume(n, w, unbuf, *p);
                     *p += n;
                 } else if n == 0 {
                     // nothing is needed from the stream: any answer but a non-zero value is fine
@@ -444,6 +493,7 @@ fn exec_rops(s: &RStream, rd: &mut dyn DynR, ops: &[ROp], p: &mut usize, notes: 
                     if exp as usize >= w {
                         notes.long_unary = true;
                     }
+                    notes.consume(q + 1 - *p, w, unbuf, *p);
                     *p = q + 1;
                 }
                 None => {
@@ -468,6 +518,7 @@ fn exec_rops(s: &RStream, rd: &mut dyn DynR, ops: &[ROp], p: &mut usize, notes: 
                 let within = *p + n <= l;
                 match rd.skip_bits(n) {
                     Ok(()) => {
+                        notes.consume(n, w, unbuf, *p);
                         *p += n;
                         if !within && !z {
                             // D9: allowed; later reads must fail (checked by the Bits arm)
@@ -513,6 +564,7 @@ fn exec_rops(s: &RStream, rd: &mut dyn DynR, ops: &[ROp], p: &mut usize, notes: 
                         o => return Err(Failure::new(sig("repeat"), ctx(format!("second identical peek returned {:?}, expected {:#x}", o, exp)))),
                     }
                     notes.peek_then_more = true;
+                    notes.peek(n, w, unbuf, *p);
                 } else {
                     match got {
                         Err(_) => {
@@ -550,6 +602,12 @@ fn exec_rops(s: &RStream, rd: &mut dyn DynR, ops: &[ROp], p: &mut usize, notes: 
                         if *p + len > l {
                             notes.beyond_end_zero = true;
                         }
+                        for t in call.read_tables() {
+                            if z || *p + tab_read_bits(t) <= l {
+                                notes.peek(tab_read_bits(t), w, unbuf, *p);
+                            }
+                        }
+                        notes.consume(len, w, unbuf, *p);
                         *p += len;
                     }
                     None => {
@@ -574,7 +632,11 @@ fn exec_rops(s: &RStream, rd: &mut dyn DynR, ops: &[ROp], p: &mut usize, notes: 
             ROp::Pos => {
                 if let Some(r) = rd.bit_pos() {
                     match r {
-                        Ok(g) if g == *p as u64 => {}
+                        Ok(g) if g == *p as u64 => {
+                            if notes.fill > w {
+                                notes.pos_while_multiword = true;
+                            }
+                        }
                         o => return Err(Failure::new(format!("bit_pos/{}", tag), ctx(format!("bit_pos() = {:?}, model position {}", o, *p)))),
                     }
                 }
@@ -593,10 +655,14 @@ fn exec_rops(s: &RStream, rd: &mut dyn DynR, ops: &[ROp], p: &mut usize, notes: 
                         continue;
                     }
                     Some(Ok(())) => {
+                        if q < *p && notes.table_used {
+                            notes.seek_back_after_table = true;
+                        }
                         *p = q;
                         if q % w != 0 {
                             notes.seek_unaligned = true;
                         }
+                        notes.fill = if unbuf { 0 } else { (w - q % w) % w };
                     }
                     Some(Err(er)) => return Err(Failure::new(sig("err"), ctx(format!("set_bit_pos({}) returned Err({})", q, er)))),
                 }
@@ -629,7 +695,13 @@ fn exec_rops(s: &RStream, rd: &mut dyn DynR, ops: &[ROp], p: &mut usize, notes: 
                                 }
                                 Err(er) => return Err(Failure::new(sig("err"), ctx(format!("returned Err({})", er)))),
                             }
-                            *p += 8 * k;
+                            let mut left = 8 * k;
+                            while left > 0 {
+                                let c = left.min(64);
+                                notes.consume(c, w, unbuf, *p);
+                                *p += c;
+                                left -= c;
+                            }
                         } else {
                             match got {
                                 Err(_) => {
@@ -648,7 +720,7 @@ fn exec_rops(s: &RStream, rd: &mut dyn DynR, ops: &[ROp], p: &mut usize, notes: 
             ROp::Fork(sub) => {
                 let mut sub_res: Result<Step, Failure> = Ok(Step::Continue);
                 let mut pc = *p;
-                let mut sub_notes = RNotes::default();
+                let mut sub_notes = RNotes { fill: notes.fill, ..RNotes::default() };
                 let could = rd.fork(&mut |c| {
                     sub_res = exec_rops(s, c, sub, &mut pc, &mut sub_notes, depth + 1);
                 });
@@ -691,7 +763,11 @@ fn exec_rops(s: &RStream, rd: &mut dyn DynR, ops: &[ROp], p: &mut usize, notes: 
                             return Err(Failure::new(sig("fabricated"), ctx(format!("look-ahead crosses the end of a strict stream but the table returned Some(({:?}, {}))", gv, gl))));
                         }
                         match dec {
-                            Some((v, len)) if len == gl && gv.map(|g| g == v).unwrap_or(true) => *p += len,
+                            Some((v, len)) if len == gl && gv.map(|g| g == v).unwrap_or(true) => {
+                                notes.peek(rb, w, unbuf, *p);
+                                notes.consume(len, w, unbuf, *p);
+                                *p += len
+                            }
                             _ => return Err(Failure::new(sig("value"), ctx(format!("table returned ({:?}, {}), reference decodes the window as {:?}", gv, gl, dec)))),
                         }
                     }
